@@ -1319,7 +1319,6 @@ void Interpret::getUnsatCore() {
 void Interpret::getInterpolants(const ASTNode& n)
 {
     auto exps = *n.children;
-    vec<PTRef> grouping; // Consists of PTRefs that we want to group
     LetRecords letRecords;
     letRecords.pushFrame();
     // as_const is just workaround to avoid the deprecated non-const call of getTermNames
@@ -1327,41 +1326,50 @@ void Interpret::getInterpolants(const ASTNode& n)
     for (auto const & [name, term] : termNames) {
         letRecords.addBinding(name, term);
     }
+    // A group is a name of an assertion or a conjunction of such names. The conjunction is read conjunct by conjunct:
+    // building the term would simplify it (duplicates, complementary or constant conjuncts)
+    std::vector<std::vector<PTRef>> groups; // Consists of PTRefs that we want to group
     for (auto e : exps) {
         ASTNode& c = *e;
-        PTRef tr = parseTerm(c, letRecords);
-//        printf("Itp'ing a term %s\n", logic->pp(tr));
-        grouping.push(tr);
+        std::vector<PTRef> members;
+        if (c.getType() == LQID_T and std::string((**(c.children->begin())).getValue()) == "and") {
+            for (auto it = std::next(c.children->begin()); it != c.children->end(); ++it) {
+                members.push_back(parseTerm(**it, letRecords));
+            }
+        } else {
+            members.push_back(parseTerm(c, letRecords));
+        }
+        groups.push_back(std::move(members));
     }
     letRecords.popFrame();
 
     if (!config.produce_inter())
         throw ApiException("Cannot interpolate");
 
-    assert(grouping.size() >= 2);
+    assert(groups.size() >= 2);
     std::vector<ipartitions_t> partitionings;
     ipartitions_t p = 0;
-    // We assume that together the groupings cover all query, so we ignore the last argument, since that should contain all that was missing at that point
-    for (int i = 0; i < grouping.size() - 1; i++)
-    {
-        PTRef group = grouping[i];
-        if (is_top_level_assertion(group))
-        {
-            int assertion_index = get_assertion_index(group);
-            assert(assertion_index >= 0);
-            setbit(p, static_cast<unsigned int>(assertion_index));
+    // All assertions with the given term belong to the group: their clauses are the same
+    auto addAssertion = [&](PTRef tr) {
+        bool found = false;
+        for (int i = 0; i < assertions.size(); ++i) {
+            if (assertions[i] == tr) {
+                setbit(p, static_cast<unsigned int>(i));
+                found = true;
+            }
         }
-        else {
-            bool ok = group != PTRef_Undef && logic->isAnd(group);
-            if (ok) {
-                Pterm const & and_t = logic->getPterm(group);
-                for (int j = 0; j < and_t.size(); j++) {
-                    PTRef tr = and_t[j];
-                    ok = is_top_level_assertion(tr);
+        return found;
+    };
+    // We assume that together the groupings cover all query, so we ignore the last argument, since that should contain all that was missing at that point
+    for (std::size_t i = 0; i + 1 < groups.size(); i++)
+    {
+        for (PTRef member : groups[i]) {
+            bool ok = member != PTRef_Undef and addAssertion(member);
+            if (not ok and member != PTRef_Undef and logic->isAnd(member)) {
+                ok = true;
+                for (PTRef tr : logic->getPterm(member)) {
+                    ok = addAssertion(tr);
                     if (!ok) { break; }
-                    int assertion_index = get_assertion_index(tr);
-                    assert(assertion_index >= 0);
-                    setbit(p, static_cast<unsigned int>(assertion_index));
                 }
             }
             if (!ok) {
